@@ -54,7 +54,7 @@ EXPECT = {
 # cache-level properties are proved over an *atomic* map (M5); that premise is M4a/M4b, i.e. the xsync protocol
 # skeletons: a change there breaks the premise of these properties too
 # the cache-layer models M2 are tied to the source text by the deep embedding: interpreter(generated syntax) = M2
-DEEP = {p: ["CacheVerif.Proofs.DeepCache", "CacheVerif.Proofs.DeepCacheOf", "CacheVerif.Proofs.DeepSource"] for p in ("C01", "C05", "C06", "C07", "C08", "C09", "C12", "C15")}
+DEEP = {p: ["CacheVerif.Proofs.DeepCache", "CacheVerif.Proofs.DeepCacheOf", "CacheVerif.Proofs.DeepSource"] for p in ("C01", "C02", "C05", "C06", "C07", "C08", "C09", "C12", "C15")}
 
 PREMISE = {p: E("Load", "DoCompute", "Resize", "Range", "Lock") for p in ("C01", "C02", "C05", "C06", "C07", "C08", "C09", "C12", "C15")}
 
